@@ -65,10 +65,79 @@ def lookup(chain, default, x):
     return default
 
 
+def interpret_evaluated(rep, lg, mod):
+    """interpret() evaluated (Engine M) on every documented alias, on values outside the alphabet and on nested iterables. Returns a lookup function
+    value -> constant name, or None when interpret is outside the evaluator subset."""
+    import collections.abc
+    from kvstatic import minieval
+    f = lg.func('interpret')
+    genv = dict(lg.consts)
+    genv['Iterable'] = collections.abc.Iterable
+    genv['Sequence'] = collections.abc.Sequence
+    minieval.module_functions(mod.tree, genv)
+    names = {v: k for k, v in lg.consts.items()}
+
+    def look(x):
+        r = minieval.call_function(f, [x], genv)
+        return names.get(r, repr(r)) if not isinstance(r, list) else [names.get(y, repr(y)) if not isinstance(y, list) else [names.get(z, repr(z)) for z in y] for y in r]
+    try:
+        look('0')
+        look(['0', '1'])
+    except ModelError as e:
+        rep.note(f'C15.chars: interpret is outside the evaluated subset ({e}); its alias table is read from the if-chain')
+        return None
+    except Exception:  # noqa: BLE001 - what the code raises is a result: reported through the alias comparison below
+        pass
+    return look
+
+
 def chartable(rep, lg, mod):
     rep.rule('C15.chars', 'interpret maps every documented alias to its constant (default UNKNOWN); every value renders to its documented character and parses back to itself')
     f = lg.func('interpret')
-    chain, default = interpret_map(f, lg.consts)
+    look = interpret_evaluated(rep, lg, mod)
+    if look is not None:
+        n = 0
+        bad = None
+
+        def got_of(x):
+            try:
+                return look(x)
+            except ModelError:
+                raise
+            except Exception as e:  # noqa: BLE001
+                return f'{type(e).__name__}'
+        for const, aliases in CONTRACT.items():
+            for a in aliases:
+                n += 1
+                got = got_of(a)
+                ok = got == const
+                rep.ob('C15.chars', f'{a!r} -> {got}', ok, sample={'rule': 'C15.chars', 'alias': repr(a), 'interpreted': got} if n % 6 == 0 else None)
+                if not ok and bad is None:
+                    bad = (a, got, const)
+                    rep.violate('C15.chars', mod, f, f'{a!r} -> {got}', f'interpret({a!r}) gives {got}; the documented contract says {const}', node=f)
+        for x, want in (('01X-', ['ZERO', 'ONE', 'UNKNOWN', 'UNASSIGNED']), (['RF', 'pn'], [['RISE', 'FALL'], ['PPULSE', 'NPULSE']]), ([True, None, 7], ['ONE', 'UNASSIGNED', 'UNKNOWN']),
+                        ((0, '1'), ['ZERO', 'ONE']), ('', []), ([], [])):
+            n += 1
+            got = got_of(x)
+            ok = got == want
+            rep.ob('C15.chars', f'{x!r} -> {got}', ok)
+            if not ok:
+                rep.violate('C15.chars', mod, f, f'{x!r} -> {got}', f'interpret({x!r}) gives {got}; iterables (strings longer than one character included) are interpreted element by element: {want}', node=f)
+        rep.floor('aliases checked', n, 24)
+        chain, default = [], None
+
+        def back_of(ch):
+            return got_of(ch)
+    else:
+        chain, default = interpret_map(f, lg.consts)
+
+        def back_of(ch):
+            return lookup(chain, default, ch)
+        chartable_structural(rep, lg, mod, f, chain, default)
+    render_table(rep, lg, mod, back_of)
+
+
+def chartable_structural(rep, lg, mod, f, chain, default):
     rep.floor('interpret alias lists', len(chain), 7)
     ok = default == 'UNKNOWN'
     rep.ob('C15.chars', f'default {default}', ok)
@@ -91,6 +160,9 @@ def chartable(rep, lg, mod):
     rep.ob('C15.chars', 'iterables are traversed element-wise, single characters are leaves', ok)
     if not ok:
         rep.violate('C15.chars', mod, f, body_no_doc(f)[0], 'interpret must map itself over iterables except strings of length 1', node=f)
+
+
+def render_table(rep, lg, mod, back_of):
     # render string
     g = lg.func('mv_str')
     strs = [n.value.value for n in ast.walk(g) if isinstance(n, ast.Starred) and isinstance(n.value, ast.Constant) and isinstance(n.value.value, str)]
@@ -132,7 +204,7 @@ def chartable(rep, lg, mod):
     for name, val in sorted(lg.consts.items(), key=lambda kv: kv[1]):
         ch = render[val] if val < len(render) else None
         ok1 = ch == RENDER[name]
-        back = lookup(chain, default, ch)
+        back = back_of(ch)
         ok2 = back == name
         rep.ob('C15.chars', f'{name}={val} renders {ch!r}, parses back to {back}', ok1 and ok2)
         if not (ok1 and ok2):
